@@ -8,6 +8,7 @@ import (
 
 	"github.com/polynetwork/poly/common"
 	"github.com/polynetwork/poly/native/service/governance/node_manager"
+	"github.com/polynetwork/poly/native/service/governance/side_chain_manager"
 	"pgregory.net/rapid"
 
 	"verif/harness/ev"
@@ -113,9 +114,9 @@ func buildC18(n int, net uint32, hi bool, prelude int) (*world.World, interface{
 	}
 	// every chain must really be registered now (the flow is the real one)
 	for _, c := range info.Chains {
-		r := f.invoke(scmAddr, "quitSideChain", encChainid(c.ID, acctAddr(aOutsider)), one(acctAddr(aOutsider)))
-		if !errHas(r.Err, "owner is wrong") {
-			panic(fmt.Sprintf("harness setup: chain %d not registered: %v", c.ID, r.Err))
+		sc, err := side_chain_manager.GetSideChain(w.Service(), c.ID)
+		if err != nil || sc == nil || sc.Router != c.Router {
+			panic(fmt.Sprintf("harness setup: chain %d not registered: %v", c.ID, err))
 		}
 	}
 	own := acctAddr(aChainOwner)
@@ -156,7 +157,7 @@ func buildC18(n int, net uint32, hi bool, prelude int) (*world.World, interface{
 		q := n - 1
 		mustOK(f.invoke(nmAddr, "quitNode", encPeer(world.PubHex(world.Acct(q)), acctAddr(q)), one(acctAddr(q))), "quitNode")
 		w.NextBlock()
-		mustOK(f.invoke(nmAddr, "commitDpos", nil, one(w.Operator())), "commitDpos")
+		mustOK(f.invoke(nmAddr, "commitDpos", nil, one(w.Operator())), "commitDpos witnessed by the operator address derived from the consensus peers")
 		pubs, _ := w.ConsensusPeers()
 		if len(pubs) != n { // n-1 old + 1 new
 			panic(fmt.Sprintf("harness setup: epoch change gave %d consensus peers, want %d", len(pubs), n))
